@@ -55,6 +55,25 @@ def cases(tier: str):
                                                noloc=noloc, batch=True, ties=1 if (q or n == 4) else None)
 
 
+def early_cases(tier: str):
+    """a failing pooled node may have finished long before the scheduler looks at it (visible to code polling done())"""
+    q = tier == "quick"
+    for n in (2, 3):
+        for es in shapes(n):
+            if len(es) > 1:
+                continue
+            for f in range(n):
+                for res in itertools.product("tam", repeat=n):
+                    res = "".join(res)
+                    if res[f] == "m" or "a" not in res and "t" not in res:
+                        continue
+                    for mc in (2, 3):
+                        for is_async in (False, True):
+                            if q and n == 3 and not is_async:
+                                continue
+                            yield dict(n=n, es=es, fail={f: "V"}, res=res, mc=mc, is_async=is_async, noloc=False, batch=False, ties=0, early=1)
+
+
 def nontrivial(view):
     # a sibling (neither ancestor nor descendant of the failing node) was in flight or ready when the failure was observed
     from ..monitors import failure_observed_at
@@ -68,7 +87,7 @@ def nontrivial(view):
 
 
 def run_shard(tier, k, n, acc):
-    for c in shard_iter(cases(tier), k, n, acc):
+    for c in shard_iter(itertools.chain(cases(tier), early_cases(tier)), k, n, acc):
         run_case(acc, c, MONITORS, nontrivial)
 
 
